@@ -16,3 +16,55 @@ var GenInt = Gen[int]
 
 // GenK is the constant of Gen's original.
 const GenK = 9100
+
+// Gen2 is a second generic mock target (original: a + 9200).
+//
+//go:noinline
+func Gen2[T any](a int) int {
+	if a > 1<<53 {
+		return a*9200 - 3
+	}
+	return a + 9200
+}
+
+// Gen2Int is the instantiation the harness mocks.
+var Gen2Int = Gen2[int]
+
+// Gen2K is the constant of Gen2's original.
+const Gen2K = 9200
+
+// LoopT starts with a loop (a branch from behind the first 13 bytes goes back into them): a plain mock
+// works, an apply with an origin placeholder has to be refused.
+//
+//go:noinline
+//go:nosplit
+func LoopT(a int) int {
+	for a&1 == 0 && a != 0 {
+		a >>= 1
+	}
+	return a*3 + 18
+}
+
+// OLoopT is the placeholder offered with LoopT (never written: the apply is refused).
+//
+//go:noinline
+func OLoopT(a int) int {
+	x := a
+	x = x*3 + 7
+	if x == 1000 {
+		x++
+	}
+	x = x*4 + 8
+	if x == 1001 {
+		x++
+	}
+	x = x*5 + 9
+	if x == 1002 {
+		x++
+	}
+	x = x*6 + 10
+	if x == 1003 {
+		x++
+	}
+	return x
+}
